@@ -1289,7 +1289,14 @@ def judge(req, resp, changed):
             det = resp.json['errors'][0]['detail']
         except Exception:
             det = resp.raw[:300].decode('utf-8', 'replace')
-        out.append(('status%d' % st, 'server error %d, detail=%r' % (st, det[:400])))
+        if 'Python int too large to convert to SQLite INTEGER' in det:
+            # Integers beyond 2^63-1 are outside the property's quantifier ("bounds up to 64-bit
+            # integers") and this failure is the SQLite driver's own range check -- MySQL and
+            # PostgreSQL drivers pass such literals through. Substrate artefact: counted, not
+            # judged (DESIGN.md section 8, "One DBMS").
+            out.append(('note:sqlite-int-range', det[:200]))
+        else:
+            out.append(('status%d' % st, 'server error %d, detail=%r' % (st, det[:400])))
     ctype = (resp.headers.get('Content-Type') or resp.headers.get('content-type') or '')
     head = req['method'] == 'HEAD'
     if st in (204, 304) and resp.raw:
@@ -1369,7 +1376,7 @@ class Worker(EnumWorker):
             self.images[st] = self.image()
             d = self.dump()
             self.dumps[st] = d
-            self.cores[st] = d.core(gens=True, aux=True)
+            self.cores[st] = d.core(gens=True, aux=False)
         self.cur = None
         self.dirty = True
 
@@ -1389,8 +1396,8 @@ class Worker(EnumWorker):
         changed = ''
         if self.dirty and resp.status in MALFORMED:
             d = self.dump()
-            if d.core(gens=True, aux=True) != self.cores[state]:
-                changed = '; '.join(diff(self.dumps[state], d, gens=True, aux=True)) or 'core'
+            if d.core(gens=True, aux=False) != self.cores[state]:
+                changed = '; '.join(diff(self.dumps[state], d, gens=True, aux=False)) or 'core'
         return resp, changed
 
     def case(self, c):
@@ -1534,6 +1541,7 @@ def run(ctx):
     samples = []
     base_viols = {}          # (bi, state) -> {(kind, detail)}
     single_viols = {}        # (bi, state, part, op[:3]) -> {kind: signature}
+    notes = {}
     nviol = [0]
 
     def on_result(c, r):
@@ -1563,6 +1571,9 @@ def run(ctx):
                                                     else ''),
                             'body': (rq['body'] or '')[:300], 'status': status})
         for kind, msg in viols:
+            if kind.startswith('note:'):
+                notes[kind] = notes.get(kind, 0) + 1
+                continue
             nviol[0] += 1
             key = (kind, det)
             bv = base_viols.get((bi, st), ())
@@ -1611,6 +1622,7 @@ def run(ctx):
                     'nested then flat; per base: path, query, envelope, body)' % per_depth[2])
 
     ctx.coverage.update({
+        "notes_not_judged": notes,
         'evaluations': evaluations[0],
         'distinct_nontrivial': len(cells),
         'rule': 'deviation-bounded exhaustive enumeration: %d valid base requests (one per '
@@ -1677,8 +1689,8 @@ def replay(ctx, data):
     after = Dump(h.dbfile)
     changed = ''
     if resp.status in MALFORMED and \
-            before.core(gens=True, aux=True) != after.core(gens=True, aux=True):
-        changed = '; '.join(diff(before, after, gens=True, aux=True)) or 'core'
+            before.core(gens=True, aux=False) != after.core(gens=True, aux=False):
+        changed = '; '.join(diff(before, after, gens=True, aux=False)) or 'core'
     viols = judge(req, resp, changed)
     line = '%s %s%s -> %s %s' % (req['method'], req['path'][:200],
                                  ('?' + req['query'][:300]) if req.get('query') else '',
